@@ -159,6 +159,21 @@ def replay(prop, path):
     obj = json.load(open(path))["replay"]
     wd = workdir(prop + "-replay")
     try:
+        if "cluster" in obj:
+            import dkgfamily
+            evs, rc, err = dkgfamily.run_dkgdrv([obj["cluster"]], wd, "replay", timeout=1500, dirk=build_dirk())
+            cl = [e for e in evs if e["ev"] == "Call"]
+            silent = [e for e in cl if e.get("noanswer") or e.get("crashed")]
+            for e in cl[:2] + silent[:3] + cl[-3:]:
+                print(json.dumps(e)[:400])
+            if not cl:
+                print(err[-400:])
+                return 2
+            if silent:
+                print("VIOLATION property=C20 replay=%s" % path)
+                return 1
+            print("replay: %d requests, every one answered, every instance alive" % len(cl))
+            return 0
         if "storm" in obj:
             bad = 0
             for attempt in range(3):
